@@ -525,3 +525,49 @@ def f_envonce(repo):
     if n == 0:
         raise LostAnchor("F-envonce: init_object_env is never called (anchor lost)")
     return {"name": "F-envonce", "obligations": n, "failed": failed, "samples": samples}
+
+
+# =====================================================================================
+# F-objfresh (C07): an object built from other objects starts with its assertions unchecked,
+# so that the object-level asserts of EVERY inherited layer run against the combined object
+# (late-bound self), and with no cached field list.
+# =====================================================================================
+ASSERT_PROBE = [
+    {"source": "({ assert self.a > 0, a: 1 } + { b: 2 }) + { a: -1 }", "oracle": {"oracle": "error_expected"}},
+    {"source": "{ assert self.a > 0, a: 1 } + ({ b: 2 } + { a: -1 })", "oracle": {"oracle": "error_expected"}},
+    {"source": "std.objectRemoveKey({ assert self.a > 0, a: 1, b: 2 } + { a: -1 }, 'b')", "oracle": {"oracle": "error_expected"}},
+]
+
+
+@frame.frame("C07")
+def f_objfresh(repo):
+    """C07: every ObjectData literal inside Program::extend_object / object_with_field_removed sets
+    `asserts_checked: Cell::new(false)` and `fields_order: OnceCell::new()` (nothing about the operands'
+    checked state or cached field list is inherited by the combined object)."""
+    rel = LANG + "/" + DATA
+    src = load(repo, rel)
+    n, failed, samples = 0, [], []
+    for fn in ("extend_object", "object_with_field_removed"):
+        pk, po, pc, _ = src.resolve("impl:Program/fn:" + fn)
+        lits = [p for p in range(po, pc) if src.t(p).text == "ObjectData" and src.t(p + 1).text == "{"]
+        if not lits:
+            raise LostAnchor("F-objfresh: no ObjectData literal in %s" % fn)
+        for p in lits:
+            c = src.match[p + 1]
+            fields = {}
+            for ks in _split_top(src, p + 2, c):
+                if len(ks) >= 3 and src.t(ks[1]).text == ":":
+                    fields[src.t(ks[0]).text] = [src.t(k).text for k in ks[2:]]
+                elif len(ks) == 1:
+                    fields[src.t(ks[0]).text] = None      # shorthand
+            for fname, want in (("asserts_checked", ["Cell", ":", ":", "new", "(", "false", ")"]), ("fields_order", ["OnceCell", ":", ":", "new", "(", ")"])):
+                n += 1
+                got = fields.get(fname, "missing")
+                if got == want:
+                    if len(samples) < 4:
+                        samples.append("C07:F-objfresh: %s builds its result with %s: %s" % (fn, fname, "".join(want)))
+                else:
+                    failed.append({"obligation": "C07:F-objfresh: %s builds the combined object with `%s: %s` (found `%s`) - asserts of inherited layers must run against the combined object / the field list must be recomputed"
+                                   % (fn, fname, "".join(want), "".join(got) if isinstance(got, list) else got),
+                                   "site": "%s:%s:%s" % (DATA, fn, fname), "file": rel, "line": src.t(p).line, "fn": fn, "probe": ASSERT_PROBE})
+    return {"name": "F-objfresh", "obligations": n, "failed": failed, "samples": samples}
